@@ -73,7 +73,8 @@ EVALS = [
 ]
 
 PREDS = ('where', 'less', 'less_equal', 'greater', 'greater_equal', 'values', 'equal', 'invalid')
-THR = {'less': 1002., 'less_equal': 1003., 'greater': 1010., 'greater_equal': 1009.,
+# fractional thresholds: an integer cell next to one is on a definite side of it
+THR = {'less': 1002.5, 'less_equal': 1003.5, 'greater': 1009.5, 'greater_equal': 1008.5,
        'values': 1005., 'equal': 1006.}
 
 
@@ -97,6 +98,10 @@ def mask_file():
     ne = np.array([e_, e_ * (1 + 5e-6), e_ * (1 - 5e-6), e_ + 0.5, v_, v_ * (1 + 5e-6), v_ * (1 - 5e-6), v_ + 0.5,
                    e_ + 1e-9, v_ - 1e-9, 1007.5, 1004.5]).reshape(2, 2, 3)
     f.vars['NE'] = RVar(('t', 'z', 'x'), ne, attrs=OrderedDict([('units', 'ppb')]))
+    # integer variables holding every whole number around the thresholds (signed and unsigned, 16 and 32 bit)
+    ni = (1000 + np.arange(12)).reshape(2, 2, 3)
+    f.vars['NI'] = RVar(('t', 'z', 'x'), ni.astype('i4'), attrs=OrderedDict([('units', 'count')]))
+    f.vars['NU'] = RVar(('t', 'z', 'x'), ni.astype('u2'), attrs=OrderedDict([('units', 'count')]))
     return f
 
 
